@@ -28,11 +28,32 @@ def units(tier):
     terms = [(t, "T1") for t in G.tier1()] + [(t, "T2") for t in G.tier2(False)] + [(t, "T3") for t in G.tier3(False)] + [(t, "T4") for t in G.tier4()]
     if tier == "thorough":
         terms += [(t, "T5") for t in G.tier5(False)]
+    terms += [(t, "X") for t in extra_terms()]
     for ch in chunks(terms, 12):
         us.append({"kind": "terms", "terms": [[t, tn] for t, tn in ch]})
     for i in range(len(slots())):
         us.append({"kind": "slot", "index": i})
     return us
+
+
+def extra_terms():
+    """zero-size look-ahead / seeking members inside sized structs: their size is 0 and the struct's advance must not change"""
+    B = BYTE
+    S = lambda *ms: ["Struct", [list(m) for m in ms]]
+    out = []
+    for inner in (B, I16, ["ConstB", b"AB"], S(("p0", B), ("p1", I16)), ["OneOf", B, [1, 2]], ["Bytes", 3]):
+        out.append(S(("p", ["Peek", inner]), ("x", B)))
+        out.append(S(("x", B), ("p", ["Peek", inner])))
+        out.append(S(("p", ["Peek", inner]), ("q", ["Peek", B]), ("x", I16)))
+        out.append(S(("x", B), ("p", ["Pointer", 0, inner]), ("y", B)))
+        out.append(["Peek", inner])
+    out.append(S(("a", B), ("c", ["Computed", ["this", "a"]]), ("k", ["Check", ["bin", ">=", ["this", "a"], ["k", 0]]]), ("t", ["Tell"]), ("b", B)))
+    out.append(S(("u", ["Union", None, [["a", I16], ["b", B]]]), ("t", B)))
+    out.append(S(("u", ["Union", 0, [["a", I16], ["b", B]]]), ("t", B)))
+    out.append(S(("k", B), ("v", ["Switch", ["this", "k"], [[1, I16], [2, G.I(2, True, "b")]], None])))
+    out.append(S(("k", B), ("v", ["Switch", ["this", "k"], [[1, I16], [2, G.I(2, True, "b")]], B])))
+    out.append(["Array", 2, S(("k", B), ("v", ["Switch", ["this", "k"], [[1, B]], I16]))])
+    return out
 
 
 # ------------------------------------------------------------------------------ part (a)
@@ -88,7 +109,12 @@ def measure(t, d, n, kw, tsig, r, values=None):
                 except Hang:
                     bad("parse-hang", {"value": repr(v)}, "parse did not terminate")
                     continue
-                except Exception:
+                except Exception as e:
+                    # "parsing those bytes ... advances the input stream by exactly n": the construct's own n-byte encoding must parse;
+                    # judged for the bare encoding only (a trailer can legitimately change the outcome, e.g. Terminated)
+                    if trail == b"" and (start == 0 or not G.attrs(t).seeks) and admissible_encoding(t, v, built, kw):
+                        bad("parse-rejects-own-encoding", {"value": repr(v), "start": start},
+                            "%s.sizeof(%s) = %d, build(%r) wrote %s, but parsing exactly those bytes raised %s" % (T.show(t), kw, n, v, built.hex(), type(e).__name__))
                     continue
                 adv2 = s2.tell() - start
                 if adv2 != n:
@@ -98,6 +124,18 @@ def measure(t, d, n, kw, tsig, r, values=None):
     if r is not None:
         r.case(nontrivial=tried > 0, outcome="measured" if tried else "sized-no-buildable-value", transitions=1 + 4 * tried, validated=1)
     return out
+
+
+def admissible_encoding(t, v, built, kw):
+    """the reference builds the same bytes and reads them back completely (filters representational gaps such as a
+    child encoding that contains its region's terminator)"""
+    try:
+        if R.build(t, v, **kw) != built:
+            return False
+        v2, end = R.parse(t, built, **kw)
+        return end == len(built)
+    except Exception:
+        return False
 
 
 def judge_sizeof(t, d, kw, tsig, r, values=None, expect_missing=False):
